@@ -14,7 +14,8 @@
 (*             - for a reference longitude beyond +-1000 degrees (the       *)
 (*               absurd references of clause 2: an f64 that large cannot    *)
 (*               carry a position to 10 m; two turns of the globe can),     *)
-(*             - at a NearThreshold latitude (float vs exact NL), and       *)
+(*             - at a NearThreshold latitude (float vs exact NL; empty on   *)
+(*               the 2^17 grid, Rlat = 87 exactly is NOT exempt), and       *)
 (*             - for surface positions beyond SurfCap (88.9 deg): there the *)
 (*               90-degree longitude zone of NL = 1 is narrower than a      *)
 (*               45 NM circle, local decoding is ambiguous by construction  *)
@@ -75,6 +76,9 @@ VARIABLE l
 Init == l = 1
 Next == /\ l <= NRec
         /\ l' = l + 1
-        /\ LET w == Why(Rec[l]) IN IF w = "" THEN TRUE ELSE PrintT(<<"REJECT", l, w>>)
+        /\ LET w == Why(Rec[l])
+           IN  IF w = "" THEN TRUE
+               ELSE PrintT(<<"REJECT", l, IF w # "binding" /\ Rlat87(Rec[l].kind, Rec[l].i, Rec[l].L)
+                                          THEN "nl_87_exact" ELSE w, w>>)
 Spec == Init /\ [][Next]_l
 =============================================================================
